@@ -238,7 +238,7 @@ def real_load(loop, path: str):
     tr = FakeTransport()
     gw = Gateway(tr, Config(persistence_file=path))
     try:
-        loop.run_until_complete(gw.persistence.load())
+        loop.run_until_complete(asyncio.wait_for(gw.persistence.load(), 20))
         return "ok", proj(gw)["nodes"]
     except PersistenceReadError:
         return "unreadable", None
